@@ -389,7 +389,7 @@ def replay(case):
 
 
 def enumerate_cases(tier):
-    base = [o for o in bench.alphabet(tier) if o[0] not in ("h_copy", "h_deepcopy", "h_pickle", "exit_exc")]
+    base = [o for o in bench.alphabet(tier) if o[0] not in ("h_copy", "h_deepcopy", "h_pickle", "h_json", "h_sbml", "exit_exc")]
     ops = base + EXTRA_OPS
     for prefix in PREFIXES:
         yield ("objcopy", prefix)
